@@ -21,22 +21,30 @@ def index_entries(body, tb):
     from idioms import expand_rows
     out = []
     facts = getattr(body, "facts", None)
-    work = [(body, tb)]
+    work = [(body, tb, None)]
     seen = set()
     while work:
-        b, t_ = work.pop(0)
+        b, t_, host = work.pop(0)
         if b.path in seen:
             continue
         seen.add(b.path)
         for c in b.calls():
             if re.search(r"IndexEntry::<.*>::new$", c.decl):
+                # `host_bb`: the block of `body` the entry belongs to - for an entry made inside a closure, the block that creates the
+                # closure (block numbers of a closure's own body mean nothing in `body`)
+                c.host_bb = (c.bb,) if host is None else host
                 for (tt0, dd0) in expand_rows((t_.term(c.args[0]), t_.term(c.args[2]))):
                     tt = strip_proj(tt0)
                     tag = tt[1].rsplit("::", 1)[-1] if tt[0] == "agg" else render(tt)
                     out.append((tag, render(dd0), c))
         if facts is not None:
             for cb in facts.closures_of(b):
-                work.append((cb, TermBuilder(cb, closure_env=True)))
+                h = host
+                if h is None:
+                    made = [i for i in range(len(b.blocks)) for st in b.stmts(i)
+                            if st.get("rv", {}).get("r") == "agg" and st["rv"].get("ak") == "closure" and st["rv"].get("closure") == cb.path]
+                    h = tuple(made)                             # no known site: dominates nothing
+                work.append((cb, TermBuilder(cb, closure_env=True), h))
     return out
 
 
@@ -52,7 +60,7 @@ def check_always_recorded(f, rep, rule):
         return
     for tag in ("RPMTAG_PAYLOADDIGEST", "RPMTAG_PAYLOADDIGESTALGO", "RPMTAG_PAYLOADDIGESTALT"):
         cs = [c for (t, _d, c) in ents if t == tag]
-        ok = bool(cs) and all(any(pd.dominates(c.bb, x.bb) for c in cs) for x in fe)
+        ok = bool(cs) and all(any(pd.dominates(h, x.bb) for c in cs for h in c.host_bb) for x in fe)
         rep.check(ok, rule, "%s|always" % tag, "%s is recorded on every build" % tag,
                   "%s is %s: a package built on the other paths carries no such digest and verification silently skips it" % (tag, "recorded only on some paths" if cs else "never recorded"),
                   cs[0].loc() if cs else pd.span)
